@@ -275,6 +275,7 @@ def random_spec(rng):
         body["subline_by"] = [f"N{lvl}" for lvl in range(sbn)]
     if rng.random() < 0.4:
         body["pageby_header"] = rng.random() < 0.5
+    G.retype_keys(rng, cols, set(body.get("page_by") or []) | set(body.get("subline_by") or []))
     spec = {"kind": "table", "df": {"cols": cols}, "body": body, "title": None, "page": {"nrow": nrow}}
     ndisp = len(E.displayed_columns(spec["df"], body))
     spec["colheader"] = G.gen_colheader(rng, ndisp, mode=rng.choice(["default", "none", "explicit"]), rich=0.0)
